@@ -92,6 +92,10 @@ def variants_conelp(cvxopt, PR, pr, rng, max_variants, focus=None):
         for m in dims['s']:
             Gs_.append(G[offs:offs + m * m, :]); hs_.append(matrix(h[offs:offs + m * m], (m, m))); offs += m * m
         out.append(('sdp', lambda: quiet(solvers.sdp, c, G[:L, :], h[:L], Gs_, hs_, A, b, options=o), tol(o), None, None))
+        if pr.p == 0 and dims['s']:
+            # the external solver DSDP (no equality constraints); it works to its own relative gap tolerance (default 1e-5)
+            od = dict(o)
+            out.append(('sdp dsdp', lambda: quiet(solvers.sdp, c, G[:L, :], h[:L], Gs_, hs_, solver='dsdp', options=od), (1e-5, 1e-5, 1e-5), None, None))
     return out
 
 def split_blocks(v, dims):
@@ -130,6 +134,23 @@ def close(a, b, rel=1e-7, ab=1e-9):
     if a is None or b is None: return a is None and b is None
     return abs(a - b) <= ab + rel * max(abs(a), abs(b))
 
+def cone_margin(v, dims):
+    """smallest margin of a cone vector: min entry of the 'l' part, v0 - ||v1|| of the 'q' blocks, smallest eigenvalue of the 's' blocks (the
+    documented meaning of 'primal slack' / 'dual slack')"""
+    from cvxopt import matrix, lapack
+    out = []; k = dims['l']
+    out += [float(t) for t in v[:k]]
+    for m in dims['q']:
+        out.append(v[k] - math.sqrt(sum(t * t for t in v[k + 1:k + m]))); k += m
+    for m in dims['s']:
+        if m:
+            M_ = matrix(0.0, (m, m))
+            for j in range(m):
+                for i in range(j, m): M_[i, j] = v[k + j * m + i]; M_[j, i] = v[k + j * m + i]
+            w = matrix(0.0, (m, 1)); lapack.syev(M_, w); out.append(min(w))
+        k += m * m
+    return min(out) if out else None
+
 def fields_optimal(r, o, native=True):
     """compare the accuracy fields of an 'optimal' result with the values recomputed exactly (parsed driver output o)"""
     bad = []
@@ -142,6 +163,15 @@ def fields_optimal(r, o, native=True):
     dres = math.sqrt(o['rx2']) / max(1.0, math.sqrt(o['c2']))
     if r.get('primal infeasibility') is not None and not close(r['primal infeasibility'], pres, 1e-3, 1e-11): bad.append(('primal infeasibility', r['primal infeasibility'], pres))
     if r.get('dual infeasibility') is not None and not close(r['dual infeasibility'], dres, 1e-3, 1e-11): bad.append(('dual infeasibility', r['dual infeasibility'], dres))
+    # slacks: the smallest cone margin of the returned s and z
+    dims_ = r.get('_dims')
+    if dims_ is not None:
+        for key, vec_ in (('primal slack', assemble(r, 's')), ('dual slack', assemble(r, 'z'))):
+            rep = r.get(key)
+            if rep is None or vec_ is None: continue
+            try: val = cone_margin(vec_, dims_)
+            except Exception: continue
+            if val is not None and not close(rep, val, 1e-6, 1e-9 * (1.0 + max(abs(t) for t in vec_))): bad.append((key, rep, val))
     rg = r.get('relative gap')
     if pc < 0: want = gap / -pc
     elif dc > 0: want = gap / dc
@@ -175,6 +205,10 @@ def cone_runs(ctx, cvxopt, kinds, n_inst, max_variants, prop, judge_exceptions=F
             if kind == 'optimal' and rng.random() < 0.7:
                 t = rng.choice([1e-4, 1e-3])
                 pr.c = [a * t for a in pr.c]; pr.wit['z'] = [a * t for a in pr.wit['z']]; pr.wit['y'] = [a * t for a in pr.wit['y']]
+        elif i % 5 == 4:
+            # semidefinite programs without equality constraints, two or three 's' blocks: the shape the external solver DSDP accepts
+            dims = {'l': rng.randint(0, 2), 'q': [], 's': [rng.randint(1, 3) for _ in range(rng.randint(2, 3))]}
+            pr = PR.planted_conelp(rng, kind, dims=dims, p=0)
         else: pr = PR.planted_conelp(rng, kind)
         for tag, fn, tol, Gj, hj in variants_conelp(cvxopt, PR, pr, rng, max_variants, focus):
             desc = {'seed': ctx.seed, 'index': i, 'kind': kind, 'presentation': tag, 'dims': pr.dims, 'c': pr.c, 'G': Gj or pr.G, 'h': hj or pr.h,
@@ -197,12 +231,13 @@ def cone_runs(ctx, cvxopt, kinds, n_inst, max_variants, prop, judge_exceptions=F
             bad = check_wrapper_pieces(r, pr.dims, tag)
             if bad: ctx.violation('%s:wrapper-blocks:%s' % (prop, tag.split(' ')[0]), '%s: %s are not the blocks of s/z' % (tag, bad), desc)
             if st == 'optimal':
-                if 'glpk' in tag:
+                if 'glpk' in tag or 'dsdp' in tag:
                     # glpk's slack h - G*x and its simplex multipliers are computed in floating point: -1e-16 on an active row or a
                     # nonbasic multiplier is rounding of the external solver (it works to its own 1e-9 tolerances), not a violation of the
                     # approximate conditions; anything below -1e-9 (relative) is kept and judged
                     r = dict(r)
                     for key in ('s', 'z'):
+                        if key not in r or r[key] is None: continue
                         sc = 1e-9 * max([1.0] + [abs(t) for t in r[key]])
                         r[key] = [max(a, 0.0) if a > -sc else a for a in r[key]]
                 lines.append(prob_line(pr, Gj, hj)); meta.append(None)
@@ -231,7 +266,7 @@ def cone_runs(ctx, cvxopt, kinds, n_inst, max_variants, prop, judge_exceptions=F
         d = parse_out(o)
         judged += 1
         ent = tag.split(' ')[0]
-        native = 'glpk' not in tag
+        native = 'glpk' not in tag and 'dsdp' not in tag
         if kind == 'optimal':
             if not d['ok']:
                 what = []
@@ -241,9 +276,18 @@ def cone_runs(ctx, cvxopt, kinds, n_inst, max_variants, prop, judge_exceptions=F
                 pres = max(math.sqrt(d['ry2']) / max(1.0, math.sqrt(d['b2'])), math.sqrt(d['rz2']) / max(1.0, math.sqrt(d['h2'])))
                 dres = math.sqrt(d['rx2']) / max(1.0, math.sqrt(d['c2']))
                 what.append('pres=%.3g dres=%.3g gap=%.3g (feastol %g abstol %g reltol %g)' % (pres, dres, float(d['gap']), t[0], t[1], t[2]))
-                ctx.violation('%s:optimal-not-certified:%s' % (prop, ent), "%s returned 'optimal' but the returned vectors fail the documented conditions: %s"
-                              % (tag, '; '.join(what)), dict(desc, checker=o))
+                # DSDP bounds the variables internally: on a problem without solution it ends at the bound with status PDFEASIBLE, which the
+                # wrapper reports as 'optimal' (listed finding); on solvable problems its 'optimal' is judged like every other
+                nosol = 'dsdp' in tag and desc.get('kind') in ('pinf', 'dinf')
+                if not (nosol and prop != 'c01'):          # (the listed DSDP behaviour is reported by C01 only)
+                    ctx.violation('%s:optimal-not-certified:%s%s' % (prop, ent, ':dsdp-on-problem-without-solution' if nosol else ''),
+                                  "%s returned 'optimal' but the returned vectors fail the documented conditions: %s" % (tag, '; '.join(what)), dict(desc, checker=o))
+                if nosol: continue
+            r = dict(r); r['_dims'] = desc['dims']
             fb = fields_optimal(r, d, native)
+            if fb and 'dsdp' in tag:
+                # the wrapper defines s := h - G x, so its primal residual is 0 by construction; the recomputation sees the rounding of that line
+                fb = [x for x in fb if not (x[0] == 'primal infeasibility' and abs(x[1] - x[2]) <= 1e-8)]
             if fb:
                 ctx.violation('%s:fields:%s:%s' % (prop, ent, fb[0][0]), '%s: reported %s = %r, recomputed from the returned vectors %r' % (tag, fb[0][0], fb[0][1], fb[0][2]),
                               dict(desc, fields=[list(map(str, x)) for x in fb]))
